@@ -197,6 +197,7 @@ def run(fb, rep, tier):
     r07_6(fb, rep, mods)
     r07_7(fb, rep)
     r07_8(fb, rep)
+    r07_9(fb, rep)
 
 
 GETTER_QUANT = {'lhsRational': 'lhs', 'rhsRational': 'rhs', 'lowerRational': 'low', 'upperRational': 'up', 'objRational': 'obj',
@@ -410,7 +411,7 @@ def r07_3(fb, rep):
 
 
 def r07_4(fb, rep):
-    rep.rule('R07.4', '_rangeTypeReal and _rangeTypeRational have the same decision table (up to the infinity source)', floor=1)
+    rep.rule('R07.4', '_rangeTypeReal and _rangeTypeRational have the same decision table and one notion of infinity (the INFTY parameter)', floor=4)
     C = M.CLS
     a = fb.one(C + '::_rangeTypeReal')
     b = fb.one(C + '::_rangeTypeRational')
@@ -431,6 +432,19 @@ def r07_4(fb, rep):
                                                for c1, c2 in zip(x[0], y[0])) for x, y in zip(na, nb)) if same else False
     rep.check(same and shape, 'R07.4', '_rangeTypeReal~_rangeTypeRational', a.where(), 'tables agree: %s' % [v for _, v in na],
               'decision tables differ: real %s / rational %s' % (na, nb))
+    # both classifiers use one notion of infinity: the INFTY parameter (the rational constants are assigned from it in setRealParam)
+    for f, ok_src in ((a, ('realParam(INFTY)',)), (b, ('_rationalPosInfty', '_rationalNegInfty'))):
+        cmps = [n for n in f.nodes if n.k in ('BinaryOperator', 'CXXOperatorCallExpr') and n.o in ('<=', '>=') and not f.in_assert(n)]
+        srcs = []
+        for n in cmps:
+            r = render(strip(n.kids[1] if n.k == 'BinaryOperator' else n.args()[1]))
+            srcs.append(r)
+        good = bool(srcs) and all(any(o in r for o in ok_src) for r in srcs)
+        rep.check(good, 'R07.4', '%s|infinity-source' % f.short, f.where(), 'thresholds %s' % sorted(set(srcs)),
+                  '%s compares with %s: the threshold between finite and infinite must be the INFTY parameter on both sides, otherwise the range types disagree with the rational bounds as soon as INFTY is not the default' % (f.short, sorted(set(srcs))))
+    sp = [g for g in fb.methods_of(C) if g.short == 'setRealParam' and g.nodes]
+    asg = [n for g in sp for n in g.nodes if ((n.k == 'BinaryOperator' and n.o == '=') or (n.k == 'CXXOperatorCallExpr' and n.o == '=')) and render(strip(n.kids[0] if n.k == 'BinaryOperator' else n.args()[0])) in ('_rationalPosInfty', '_rationalNegInfty')]
+    rep.check(len(asg) >= 2, 'R07.4', 'setRealParam|rational-infinity-follows-INFTY', sp[0].where() if sp else '', 'both rational infinities are assigned in setRealParam', 'setRealParam does not assign _rationalPosInfty / _rationalNegInfty: the rational notion of infinity does not follow the INFTY parameter')
 
 
 def r07_5(fb, rep):
@@ -583,3 +597,36 @@ def r07_8(fb, rep):
                       '%s assigns the real LP to the rational LP on a path that is taken when the real LP is persistently scaled: the rational LP receives scaled coefficients instead of the user\'s numbers' % f.short)
     if k < 1:
         raise AnalysisBroken('R07.8: no assignment of the real LP to the rational LP found')
+
+
+def r07_9(fb, rep):
+    """R07.9: the rational LP stores the entered numbers verbatim.  In the functions of the rational LP classes that store values, no
+    comparison of the tolerance family (isZero / isNotZero / EQ / ... with an epsilon) is applied to a Rational: a nonzero below the
+    floating-point epsilon would be dropped or merged.  A call in the arm of a conditional that the instantiation decides statically
+    (std::numeric_limits<Rational>::is_exact) is dead and does not count."""
+    rep.rule('R07.9', 'no tolerance comparison decides what the rational LP stores (SPxLPBase / LPRowSetBase / LPColSetBase / SVSetBase <Rational> mutators)', floor=25)
+    TOL = {'isNotZero', 'isZero', 'EQ', 'NE', 'LT', 'LE', 'GT', 'GE', 'EQrel', 'NErel', 'LTrel', 'LErel', 'GTrel', 'GErel'}
+    k = 0
+    for f in sorted(fb.funcs.values(), key=lambda g: g.name):
+        if not re.match(r'^soplex::(SPxLPBase|LPRowSetBase|LPColSetBase|SVSetBase)<Rational>::(change|add|doAdd|create|xtend|add2)', f.name) or not f.nodes:
+            continue
+        k += 1
+        hits = []
+        for c in f.nodes:
+            if c.k == 'CallExpr' and c.short in TOL and c.args() and 'Rational' in (c.args()[0].t or '') and not f.in_assert(c):
+                dead = False
+                child = c
+                for a in f.ancestors(c):
+                    if a.k == 'ConditionalOperator':
+                        cond = strip(a.kid('cond'))
+                        if cond.k == 'DeclRefExpr' and (cond.n or '').endswith('::is_exact') and 'numeric_limits<Rational>' in (cond.n or ''):
+                            # is_exact is true for the rational type: the else operand is never evaluated
+                            if any(x.i == c.i for x in a.kid('else').walk()):
+                                dead = True
+                    child = a
+                if not dead:
+                    hits.append(c)
+        rep.check(not hits, 'R07.9', f.name.replace('soplex::', '')[:80] + '(%d)' % len(f.params), f.where(), 'no tolerance test on exact values',
+                  '%s decides with %s whether / what to store: an exact nonzero below the floating-point epsilon is dropped from the rational LP' % (f.short, render(hits[0])[:60] if hits else ''))
+    if k < 25:
+        raise AnalysisBroken('R07.9: only %d storing functions of the rational LP classes found' % k)
